@@ -19,6 +19,13 @@ import (
 	"verifharness/mbt"
 )
 
+func scaleOf(cfg map[string]interface{}) int {
+	if v, ok := cfg["Scale"]; ok {
+		return mbt.Int(v)
+	}
+	return 0
+}
+
 func powersOf(cfg map[string]interface{}) []int64 {
 	var p []int64
 	for _, x := range cfg["Power"].([]interface{}) {
@@ -428,13 +435,13 @@ func main() {
 		dir, _ := ioutil.TempDir("", "csim-live-")
 		defer os.RemoveAll(dir)
 		sim, evs, rerr := csim.RunLive(dir, powersOf(cfg), intsOf(cfg["Byz"]), int64(mbt.Int(cfg["MaxRound"])),
-			int64(mbt.Int(cfg["Heights"])), int64(mbt.Int(cfg["Seed"])), time.Duration(mbt.Int(cfg["LimitMs"]))*time.Millisecond)
+			int64(mbt.Int(cfg["Heights"])), int64(mbt.Int(cfg["Seed"])), time.Duration(mbt.Int(cfg["LimitMs"]))*time.Millisecond, scaleOf(cfg))
 		res := map[string]interface{}{"events": len(evs)}
 		if rerr != nil {
 			res["error"] = rerr.Error()
 		}
 		if sim != nil {
-			recs := sim.LiveTrace(evs)
+			recs := sim.LiveTrace(evs, int64(mbt.Int(cfg["Heights"])))
 			f, err := os.Create(os.Args[3])
 			if err != nil {
 				fmt.Fprintln(os.Stderr, err)
